@@ -774,6 +774,44 @@ def rule_W_IFACE(ctx, d):
                          'archive(obj) must only rebind cache.archive', where(d, node.lineno), render_path(o))
 
 
+def rule_W_UPDATER(ctx, d):
+    """a module-local replacement for functools.update_wrapper must leave wrapper.__wrapped__ == the decorated function"""
+    fi = d.module.functions.get('update_wrapper') or d.module.functions.get('wraps')
+    if fi is None:
+        ctx.ob('W-IFACE', d.name + ' uses functools.update_wrapper', d.module.imports.get('update_wrapper', '').startswith('functools') or 'update_wrapper' not in unparse(d.call_fi.node))
+        return
+    node = fi.node
+    params = [a.arg for a in node.args.args]
+    if len(params) < 2:
+        return
+    w, f = params[0], params[1]
+    generic, explicit = [], []
+    for n in ast.walk(node):
+        if isinstance(n, ast.Call):
+            fn = n.func
+            if isinstance(fn, ast.Attribute) and fn.attr == 'update' and w in unparse(fn.value) and '__dict__' in unparse(fn.value):
+                generic.append(n.lineno)
+            if isinstance(fn, ast.Name) and fn.id == 'setattr' and n.args and unparse(n.args[0]) == w:
+                if len(n.args) > 1 and isinstance(n.args[1], ast.Constant):
+                    if n.args[1].value == '__wrapped__' and len(n.args) > 2 and unparse(n.args[2]) == f:
+                        explicit.append(n.lineno)
+                else:
+                    generic.append(n.lineno)
+        if isinstance(n, ast.Assign):
+            for t in n.targets:
+                if isinstance(t, ast.Subscript) and '__dict__' in unparse(t.value) and w in unparse(t.value):
+                    generic.append(n.lineno)
+                if isinstance(t, ast.Attribute) and t.attr == '__wrapped__' and unparse(t.value) == w and unparse(n.value) == f:
+                    explicit.append(n.lineno)
+    ok = not generic or (explicit and max(explicit) > max(generic))
+    ctx.ob('W-IFACE', d.name + ' local update_wrapper', ok)
+    if not ok:
+        ctx.fail('W-IFACE', '%s::%s' % (d.module.rel, fi.name), 'local update_wrapper can overwrite __wrapped__',
+                 'the module-local %s copies attributes of the decorated function into the wrapper (line %d) and does not re-assign wrapper.__wrapped__ = wrapped afterwards: '
+                 'when the decorated function itself carries a __wrapped__ (functools.wraps, a rounding decorator, another cache) the outer __wrapped__ points at the innermost function'
+                 % (fi.name, max(generic)), '%s:%d' % (d.module.rel, node.lineno))
+
+
 def rule_W_WRITERS(ctx, d):
     """who may write the cache: only wrapper and clear (and the re-exported load/dump)"""
     allowed = {}
